@@ -21,7 +21,7 @@ from __future__ import annotations
 
 import ast
 
-from ..astutil import attr_chain, callee_name, calls, is_name, text, unwrap_await
+from ..astutil import call_recv, attr_chain, callee_name, calls, is_name, text, unwrap_await
 from ..core import Result
 from ..model import AnchorMissing, Repo, walk_no_nested
 
@@ -63,7 +63,7 @@ def run(repo: Repo) -> Result:
             continue
         w = withs[0]
         ce = w.items[0].context_expr
-        if not (isinstance(ce, ast.Call) and callee_name(ce) == "extend" and is_name(ce.func.value, "context") and len(ce.args) + len(ce.keywords) == 1):
+        if not (isinstance(ce, ast.Call) and callee_name(ce) == "extend" and is_name(call_recv(ce), "context") and len(ce.args) + len(ce.keywords) == 1):
             res.add("C27-WITH", f.qual, "extend", f"{f.qual}: the block must run inside context.extend(namespace)", f.file, w.lineno)
             continue
         ns = ce.args[0] if ce.args else ce.keywords[0].value
@@ -76,7 +76,7 @@ def run(repo: Repo) -> Result:
         if not _is_args_comp(ns, ev):
             res.add("C27-WITH", f.qual, f"namespace:{text(ns)[:50]}", f"{f.qual}: namespace must be {{a.name: a.value.{ev}(context) for a in self.args}}, found `{text(ns)[:80]}`", f.file, w.lineno)
         # the block is rendered inside the with and nowhere else
-        inside = [c for c in calls(w) if callee_name(c) == rd and attr_chain(c.func.value) == ["self", "block"]]
+        inside = [c for c in calls(w) if callee_name(c) == rd and attr_chain(call_recv(c)) == ["self", "block"]]
         everywhere = [c for c in calls(f.node) if callee_name(c) in ("render", "render_async")]
         if len(inside) != 1 or len(everywhere) != 1:
             res.add("C27-WITH", f.qual, "block-inside-with", f"{f.qual}: self.block must be rendered exactly once, inside the with block", f.file, f.line)
